@@ -16,6 +16,15 @@ package main
 // child, WithValue (model: hf, cancelled with the run's) and context.WithoutCancel /
 // Background + the VM's values (model: hd, detached); the halt flag must stop the callback
 // whatever context it was handed.
+// Deferred script closures (`defer func() { … }()`): a function frame (a script call, the
+// callback of a builtin) keeps the closure and runs it when the frame is left — also when the
+// halt test stopped it.  Shapes `W fn body k` (script call) and `E d k` (defer statement) put
+// deferred closures that do not end by themselves (compute loop, polling loop with time.sleep,
+// retry loop, retried wait on a channel nobody feeds) on the frame stack while the
+// cancellation arrives: in the function itself, in a callee, in a builtin's callback, in a
+// deferred closure that is already running.  `C06 deferred <instant> <shape>` gives the
+// model's verdict (must stop / never stops) and what the frames hold; it is compared with what
+// the real evaluation did.
 // Impl model: RisorModel/C06 through the oracle (`C06 run <instant> <shape>`, `C06 rerun
 // <entry> <instant> <shape>` for a used VM): the set of outcomes the model allows for each
 // evaluation (error class of the call | threads that never stop).  Spec: evaluated here on
@@ -61,7 +70,7 @@ const (
 // ---- program shapes (mirror of Risor.C06.Prog) ----
 
 type c06Prog struct {
-	kind string // D C S B W G
+	kind string // D C S B W G E (E: `defer func(){ body }()`, then k)
 	arg  string // primitive / wrapper
 	id   int    // thread id of a spawn
 	form int    // B: 0 = rendering form chosen at random, n = form n-1 (fixed witnesses)
@@ -76,6 +85,8 @@ func c06S() *c06Prog                        { return &c06Prog{kind: "S"} }
 func c06B(p string, k *c06Prog) *c06Prog    { return &c06Prog{kind: "B", arg: p, k: k} }
 func c06W(w string, b, k *c06Prog) *c06Prog { return &c06Prog{kind: "W", arg: w, body: b, k: k} }
 func c06G(b, k *c06Prog) *c06Prog           { return &c06Prog{kind: "G", body: b, k: k} }
+func c06E(d, k *c06Prog) *c06Prog           { return &c06Prog{kind: "E", body: d, k: k} }
+func c06F(b, k *c06Prog) *c06Prog           { return c06W("fn", b, k) } // script call func(){ b }()
 func (p *c06Prog) then(k *c06Prog) *c06Prog { // replace the trailing D of p by k (spin absorbs)
 	switch p.kind {
 	case "D":
@@ -94,7 +105,7 @@ func (p *c06Prog) number(next *int) {
 	case "D", "S":
 	case "C", "B":
 		p.k.number(next)
-	case "W":
+	case "W", "E":
 		p.body.number(next)
 		p.k.number(next)
 	case "G":
@@ -119,6 +130,10 @@ func (p *c06Prog) toks(out *[]string) {
 		*out = append(*out, "W", p.arg)
 		p.body.toks(out)
 		p.k.toks(out)
+	case "E":
+		*out = append(*out, "E")
+		p.body.toks(out)
+		p.k.toks(out)
 	case "G":
 		*out = append(*out, "G", strconv.Itoa(p.id))
 		p.body.toks(out)
@@ -137,7 +152,7 @@ func (p *c06Prog) walk(f func(*c06Prog, int), depth int) {
 	switch p.kind {
 	case "C", "B":
 		p.k.walk(f, depth)
-	case "W":
+	case "W", "E":
 		p.body.walk(f, depth)
 		p.k.walk(f, depth)
 	case "G":
@@ -149,10 +164,11 @@ func (p *c06Prog) walk(f func(*c06Prog, int), depth int) {
 // ---- rendering to risor source ----
 
 type c06Render struct {
-	rng   *RNG
-	n     int
-	flav  []string
-	lines []string
+	rng     *RNG
+	n       int
+	flav    []string
+	lines   []string
+	inDefer int // > 0 while the body of a deferred closure is rendered
 }
 
 func (r *c06Render) emit(ind int, s string) {
@@ -183,6 +199,26 @@ func (r *c06Render) prog(p *c06Prog, tid, ind int) {
 		r.prog(p.k, tid, ind)
 	case "S":
 		t := strconv.Itoa(tid)
+		if r.inDefer > 0 {
+			// an unbounded loop in a DEFERRED closure: the cleanup code that does not end by itself
+			r.n++
+			n := strconv.Itoa(r.n)
+			switch r.fl("ds", 5) {
+			case 0: // compute loop
+				r.emit(ind, "for { tick("+t+") }")
+			case 1: // polling wait: time.sleep returns at once on a done context, the loop spins
+				r.emit(ind, "for { time.sleep(0.001); tick("+t+") }")
+			case 2: // retry loop: every attempt fails, try() swallows the error
+				r.emit(ind, "for { try(func() { time.sleep(0.001); error(\"not yet\") }); tick("+t+") }")
+			case 3: // retried wait on a channel nobody feeds (the receive fails once the context is done)
+				r.emit(ind, "q"+n+" := chan()")
+				r.emit(ind, "for { tick("+t+"); try(func() { q"+n+".receive() }) }")
+			default: // polling a condition that never becomes true
+				r.emit(ind, "ok"+n+" := false")
+				r.emit(ind, "for !ok"+n+" { time.sleep(0.002); tick("+t+") }")
+			}
+			return
+		}
 		switch r.fl("s", 5) {
 		case 0: // bare infinite loop
 			r.emit(ind, "for { tick("+t+") }")
@@ -275,7 +311,25 @@ func (r *c06Render) prog(p *c06Prog, tid, ind int) {
 			}
 		}
 		r.prog(p.k, tid, ind)
+	case "E":
+		r.emit(ind, "defer func() {")
+		r.inDefer++
+		r.prog(p.body, tid, ind+1)
+		r.inDefer--
+		r.emit(ind, "}()")
+		r.prog(p.k, tid, ind)
 	case "W":
+		if p.arg == "fn" {
+			// a plain script call: the callee is a function frame of its own
+			r.n++
+			f := "fn" + strconv.Itoa(r.n)
+			r.emit(ind, f+" := func() {")
+			r.prog(p.body, tid, ind+1)
+			r.emit(ind, "}")
+			r.emit(ind, f+"()")
+			r.prog(p.k, tid, ind)
+			return
+		}
 		if p.arg == "hf" || p.arg == "hd" {
 			// a host-provided builtin that calls the function back through object.GetCallFunc
 			// with a derived context: hf = one that is cancelled with the caller's (0 the same
@@ -481,18 +535,31 @@ func c06ComputeOnly(p *c06Prog) bool {
 }
 
 func c06Wf(p *c06Prog) bool {
+	hasDefer, hasDetached := false, false
+	p.walk(func(q *c06Prog, _ int) {
+		hasDefer = hasDefer || q.kind == "E"
+		hasDetached = hasDetached || (q.kind == "W" && q.arg == "hd")
+	}, 0)
+	return c06WfIn(p, false) && !(hasDefer && hasDetached)
+}
+
+// c06WfIn mirrors Risor.C06.wfIn: inFn = the code is the body of a function (callback, script
+// call, deferred closure); a defer statement is only accepted there.
+func c06WfIn(p *c06Prog, inFn bool) bool {
 	switch p.kind {
 	case "D", "S":
 		return true
 	case "C", "B":
-		return c06Wf(p.k)
+		return c06WfIn(p.k, inFn)
 	case "W":
 		if p.arg == "hd" && !c06ComputeOnly(p.body) {
 			return false
 		}
-		return c06Wf(p.body) && c06Wf(p.k)
+		return c06WfIn(p.body, true) && c06WfIn(p.k, inFn)
 	case "G":
-		return c06Wf(p.body) && c06Wf(p.k)
+		return c06WfIn(p.body, false) && c06WfIn(p.k, inFn)
+	case "E":
+		return inFn && c06WfIn(p.body, true) && c06WfIn(p.k, inFn)
 	}
 	return false
 }
@@ -592,6 +659,162 @@ func c06HostSystematic() []*c06Prog {
 	return out
 }
 
+// ---- deferred script closures on the frame stack when the cancellation arrives ----
+
+// what a deferred closure does (it runs when its frame is left, also by the halt test)
+var c06DeferredBodies = []struct {
+	name string
+	mk   func() *c06Prog
+}{
+	{"unbounded loop", func() *c06Prog { return c06S() }},
+	{"compute then unbounded loop", func() *c06Prog { return c06C(c06S()) }},
+	{"wait on a channel nobody feeds", func() *c06Prog { return c06B("recv", c06Done) }},
+	{"failed wait then loop", func() *c06Prog { return c06W("try", c06B("recv", c06Done), c06S()) }},
+	{"sleep then loop", func() *c06Prog { return c06B("sleep", c06S()) }},
+	{"retry: try(loop) then loop", func() *c06Prog { return c06W("try", c06S(), c06S()) }},
+	{"loop inside each", func() *c06Prog { return c06W("each", c06S(), c06Done) }},
+	{"terminating cleanup", func() *c06Prog { return c06C(c06Done) }},
+	{"script call holding a deferred loop of its own", func() *c06Prog { return c06F(c06E(c06S(), c06C(c06Done)), c06Done) }},
+}
+
+// what the code is doing when the cancellation arrives
+var c06DeferParks = []struct {
+	name string
+	mk   func() *c06Prog
+}{
+	{"loop", func() *c06Prog { return c06S() }},
+	{"compute, loop", func() *c06Prog { return c06C(c06S()) }},
+	{"receive", func() *c06Prog { return c06B("recv", c06Done) }},
+	{"sleep", func() *c06Prog { return c06B("sleep", c06Done) }},
+	{"wait", func() *c06Prog { return c06B("wait", c06C(c06Done)) }},
+	{"send then loop", func() *c06Prog { return c06B("send", c06S()) }},
+}
+
+// where the frame that holds the deferred closure d sits relative to the parked code
+var c06DeferHolders = []struct {
+	name string
+	mk   func(r *RNG, d func() *c06Prog, park, k *c06Prog) *c06Prog
+}{
+	{"the function itself", func(r *RNG, d func() *c06Prog, park, k *c06Prog) *c06Prog { return c06F(c06E(d(), park), k) }},
+	{"a caller (script call inside)", func(r *RNG, d func() *c06Prog, park, k *c06Prog) *c06Prog {
+		return c06F(c06E(d(), c06F(park, c06Done)), k)
+	}},
+	{"caller and callee", func(r *RNG, d func() *c06Prog, park, k *c06Prog) *c06Prog {
+		return c06F(c06E(d(), c06C(c06F(c06E(d(), park), c06Done))), k)
+	}},
+	{"the callback of a builtin", func(r *RNG, d func() *c06Prog, park, k *c06Prog) *c06Prog {
+		return c06W(Pick(r, []string{"each", "map", "filter", "sorted", "call", "try", "hf"}), c06E(d(), park), k)
+	}},
+	{"the caller of a builtin whose callback is parked", func(r *RNG, d func() *c06Prog, park, k *c06Prog) *c06Prog {
+		return c06F(c06E(d(), c06W(Pick(r, []string{"each", "map", "filter", "sorted", "call", "try", "hf"}), park, c06Done)), k)
+	}},
+	{"two deferred closures", func(r *RNG, d func() *c06Prog, park, k *c06Prog) *c06Prog {
+		return c06F(c06E(d(), c06C(c06E(Pick(r, c06DeferredBodies).mk(), park))), k)
+	}},
+	{"the deferred closure is what is running (frame returned)", func(r *RNG, d func() *c06Prog, park, k *c06Prog) *c06Prog {
+		return c06F(c06E(park, c06E(d(), c06C(c06Done))), k)
+	}},
+	{"inside a deferred closure that is running", func(r *RNG, d func() *c06Prog, park, k *c06Prog) *c06Prog {
+		return c06F(c06E(c06F(c06E(d(), park), c06Done), c06Done), k)
+	}},
+	{"a spawned function", func(r *RNG, d func() *c06Prog, park, k *c06Prog) *c06Prog {
+		return c06G(c06F(c06E(d(), park), c06Done), k.then(c06S()))
+	}},
+}
+
+type c06DeferCase struct {
+	prog                *c06Prog
+	holder, body, parks string
+}
+
+func c06DeferSystematic(r *RNG) []c06DeferCase {
+	conts := []func() *c06Prog{
+		func() *c06Prog { return c06Done },
+		func() *c06Prog { return c06C(c06Done) },
+		func() *c06Prog { return c06S() },
+	}
+	var out []c06DeferCase
+	for _, h := range c06DeferHolders {
+		for _, d := range c06DeferredBodies {
+			for _, pk := range c06DeferParks {
+				p := h.mk(r, d.mk, pk.mk(), Pick(r, conts)())
+				if c06Wf(p) {
+					out = append(out, c06DeferCase{p, h.name, d.name, pk.name})
+				}
+			}
+		}
+	}
+	return out
+}
+
+// c06DeferRandom: function frames nested up to 4 deep (script calls and builtin callbacks), each
+// registering 0..2 deferred closures before it goes on; the innermost parks.
+func c06DeferRandom(r *RNG, depth int) *c06Prog {
+	var inner *c06Prog
+	if depth >= 3 || r.Chance(35) {
+		inner = Pick(r, c06DeferParks).mk()
+	} else {
+		inner = c06DeferRandom(r, depth+1)
+		if r.Chance(30) {
+			inner = c06C(inner)
+		}
+	}
+	for n := r.Intn(3); n > 0; n-- {
+		d := Pick(r, c06DeferredBodies).mk()
+		if r.Chance(60) {
+			d = c06S()
+		}
+		inner = c06E(d, inner)
+		if r.Chance(30) {
+			inner = c06C(inner)
+		}
+	}
+	k := Pick(r, []*c06Prog{c06Done, c06Done, c06C(c06Done), c06S()})
+	if r.Chance(55) {
+		return c06F(inner, k)
+	}
+	return c06W(Pick(r, []string{"each", "map", "filter", "sorted", "call", "try", "hf"}), inner, k)
+}
+
+// c06EvalDeferred: the model's verdict for the main thread at the instant of the cancellation
+// (`C06 deferred`: must stop / never stops, what its frames hold) next to the ordinary
+// evaluation of the case; the verdict is compared with what the real evaluation did.
+func c06EvalDeferred(e *Env, c c06Case, holder, body, parks string) {
+	at := c.stages[c.fire].prog
+	instant := c.instant
+	n := 0
+	q := c06Clone(at)
+	q.number(&n)
+	rep := e.O.Ask("C06", "deferred", instant, q.String())
+	f := strings.Split(rep, "\t")
+	if len(f) != 5 || f[0] != "ok" {
+		e.R.Mismatch(q.String(), "-", rep, "oracle rejected the shape (deferred)")
+		return
+	}
+	stops := f[1] == "stops=1"
+	pending, loops := strings.TrimPrefix(f[3], "pending="), strings.TrimPrefix(f[4], "loops=")
+	c.deferInfo = fmt.Sprintf("the frames the main thread was inside of when the context fired (%s) held %s deferred script closure(s), %s of them with an unbounded loop; the model (Risor.C06.halt_stops_deferred_calls) says the raised halt flag stops each of them at its first poll: the evaluation must end (stops=%v)",
+		strings.TrimPrefix(f[2], "frames=")+" frame(s)", pending, loops, stops)
+	e.R.H("deferred_holder", holder)
+	e.R.H("deferred_closure_does", body)
+	e.R.H("deferred_cancelled_while", parks+" ("+instant+")")
+	e.R.H("deferred_pending_at_cancellation", pending)
+	e.R.H("deferred_pending_with_unbounded_loop", loops)
+	e.R.H("deferred_model_verdict", map[bool]string{true: "must stop", false: "never stops"}[stops])
+	obs := c06Eval(e, c)
+	if obs == nil || obs.unparked != "" {
+		return
+	}
+	returned := obs.hangAt < 0
+	e.R.H("deferred_real_evaluation", map[bool]string{true: "returned", false: "did not return"}[returned])
+	if stops != returned {
+		key := c06Key(c, obs.flav)
+		e.R.Mismatch(key+" :: "+strings.ReplaceAll(strings.Join(obs.srcs, " ;; "), "\n", " ⏎ "),
+			map[bool]string{true: "the evaluation returned", false: "the evaluation did not return after the cancellation"}[returned],
+			rep, "deferred closures: the model's verdict for the main thread (must stop / never stops) against the real evaluation")
+	}
+}
+
 // ---- one case on the real code ----
 
 // One evaluation on the VM of the case.
@@ -612,6 +835,9 @@ type c06Case struct {
 	ctxKind  string // cancel | deadline | far | child | parent
 	delayMs  int
 	flavSeed uint64
+	// set for the deferred-closure cases: what the model says about the frames at the instant of
+	// the cancellation (added to the detail of a Spec violation)
+	deferInfo string
 }
 
 func c06Single(p *c06Prog, instant, kind string, delay int, flavSeed uint64) c06Case {
@@ -1176,7 +1402,7 @@ func c06Agree(m c06Model, cls string, run []int, last bool) (int, string) {
 	return 0, out
 }
 
-func c06Eval(e *Env, c c06Case) {
+func c06Eval(e *Env, c c06Case) *c06Obs {
 	n := 0
 	models := make([]c06Model, len(c.stages))
 	for i := range c.stages {
@@ -1201,7 +1427,7 @@ func c06Eval(e *Env, c c06Case) {
 		m, ok := c06ParseReply(rep)
 		if !ok {
 			e.R.Mismatch(st.prog.String(), "-", rep, "oracle rejected the shape")
-			return
+			return nil
 		}
 		m.instant, m.lo, m.hi = instant, lo, n
 		models[i] = m
@@ -1279,9 +1505,11 @@ func c06Eval(e *Env, c c06Case) {
 			case "B":
 				e.R.H("constructs", "block:"+p.arg)
 			case "W":
-				e.R.H("constructs", "callback:"+map[string]string{"hf": "host builtin, context cancelled with the run's", "hd": "host builtin, detached context"}[p.arg]+map[bool]string{true: p.arg}[p.arg != "hf" && p.arg != "hd"])
+				e.R.H("constructs", "callback:"+map[string]string{"hf": "host builtin, context cancelled with the run's", "hd": "host builtin, detached context", "fn": "script call"}[p.arg]+map[bool]string{true: p.arg}[p.arg != "hf" && p.arg != "hd" && p.arg != "fn"])
 			case "S":
 				e.R.H("constructs", "spin")
+			case "E":
+				e.R.H("constructs", "defer")
 			case "G":
 				e.R.H("constructs", "spawn")
 				if d+1 > maxDepth {
@@ -1311,13 +1539,18 @@ func c06Eval(e *Env, c c06Case) {
 		}
 	}
 
+	for f, name := range map[string]string{"ds0": "compute loop", "ds1": "polling loop with time.sleep", "ds2": "retry loop (try + error)", "ds3": "retried wait on a channel nobody feeds", "ds4": "polling a condition that never holds"} {
+		if strings.Contains(obs.flav, f) {
+			e.R.H("deferred_loop_form", name)
+		}
+	}
 	if obs.unparked != "" {
 		if strings.HasPrefix(obs.unparked, "deadline passed") {
 			e.R.H("inconclusive", "deadline before parked")
-			return
+			return &obs
 		}
 		e.R.Mismatch(caseText, obs.unparked, "parked="+fmt.Sprint(models[c.fire].parked), "the threads did not reach the parking points the model predicts")
-		return
+		return &obs
 	}
 	sort.Ints(obs.ticking)
 	l := last(obs.cls)
@@ -1331,7 +1564,7 @@ func c06Eval(e *Env, c c06Case) {
 		}
 		if obs.cls[i] == "other" {
 			e.R.Mismatch(caseText, where+"error "+obs.errText[i], strings.Join(m.outs, ";"), "unexpected error from the real code")
-			return
+			return &obs
 		}
 		agree, goOut := c06Agree(m, obs.cls[i], obs.ticking, i == l)
 		e.R.H("outcome", goOut)
@@ -1349,6 +1582,9 @@ func c06Eval(e *Env, c c06Case) {
 		}
 		if obs.cls[i] == "hang" {
 			detail := where + "the call did not return within the limit (10 s; 1.5 s once three cases have hung) after the cancellation"
+			if c.deferInfo != "" {
+				detail += " — " + c.deferInfo
+			}
 			if agree == 1 {
 				c06Proposed(e, c06FindReset, caseText, detail+" — RunCode on a used VM with a context that had already fired: resetForNewCode() cleared the halt flag the new watcher had just set")
 			} else {
@@ -1398,6 +1634,7 @@ func c06Eval(e *Env, c c06Case) {
 		e.R.Mismatch(caseText, fmt.Sprintf("%d goroutine(s) still alive after the host ended every loop and the settle limit", obs.stuckGor), "all threads finished", "goroutine count did not settle")
 		e.R.Spec(caseText, fmt.Sprintf("%d goroutine(s) started by the evaluation are still alive after every context was cancelled, every loop was ended by the host and %s had passed", obs.stuckGor, "the settle limit (3 s; 300 ms once three cases were stuck)"), "")
 	}
+	return &obs
 }
 
 // ---- a defect of the unchanged code that known_findings.json may not list yet ----
@@ -1589,6 +1826,10 @@ func c06_runC06(e *Env) {
 		"host-provided builtins that call a script function back through object.GetCallFunc with a derived context " +
 		"{the same, WithCancel child, WithValue, WithoutCancel, Background + values} x {long loop, nested calls, finite callback, further callbacks of host builtins / each / call / try / sorted} x {what follows the builtin} x " +
 		"{enclosing callback builtin, host builtin, spawned function} and seeded random nestings (also rendered as a loop of finite callbacks), cancellation before / during / after the callback; " +
+		"deferred script closures: fixed witnesses, the systematic product {the frame that holds the deferred closure: the function itself, a caller, caller and callee, the callback of each/map/filter/sorted/call/try/a host builtin, the caller of such a builtin, " +
+		"two deferred closures, the deferred closure itself already running, a frame inside a running deferred closure, a spawned function} x {what the deferred closure does: unbounded loop (rendered as compute loop, polling loop with time.sleep, " +
+		"retry loop, retried wait on a channel nobody feeds, polling a condition), loop after a failed wait / a sleep / a try, a blocked receive, a loop inside each, a terminating cleanup, a script call holding a deferred loop of its own} x " +
+		"{what the code is doing when the context fires: loop, receive, sleep, wait, send} and seeded random nestings of function frames up to 4 deep with 0..2 deferred closures each; " +
 		"sequences: systematic {same context re-supplied after it fired while the VM was idle, retry after a cancelled evaluation, cancellation during the n-th evaluation, another live context first} x {Call, RunCode} x parking actions, and seeded random ones; " +
 		"instants: context already fired before the start, fired while every thread is parked (logical sync on tick/mark counters) or after the main code returned; context kinds: cancel(), own deadline reached, " +
 		"cancel() of a context whose own / inherited / wrapped deadline is far away, cancel() of the parent; " +
@@ -1806,6 +2047,69 @@ func c06_runC06(e *Env) {
 			kind = "deadline"
 		}
 		c06Eval(e, mk(p, instant, kind))
+	}
+	// 8. deferred script closures held by the frames the cancellation interrupts: fixed
+	// witnesses, the systematic product {where the holding frame sits} x {what the deferred
+	// closure does} x {what the code is doing when the context fires}, random nestings
+	deferFixed := []struct {
+		c                   c06Case
+		holder, body, parks string
+	}{
+		{c06Single(c06F(c06E(c06S(), c06S()), c06Done), "later", "deadline", 0, 1), "the function itself", "unbounded loop", "loop"},
+		{c06Single(c06F(c06E(c06S(), c06S()), c06Done), "later", "cancel", 0, 2), "the function itself", "unbounded loop", "loop"},
+		{c06Single(c06F(c06E(c06S(), c06S()), c06S()), "later", "cancel", 0, 3), "the function itself", "unbounded loop", "loop"},
+		{c06Single(c06F(c06E(c06S(), c06S()), c06Done), "later", "far", 0, 4), "the function itself", "unbounded loop", "loop"},
+		{c06Single(c06F(c06E(c06S(), c06S()), c06Done), "later", "parent", 0, 5), "the function itself", "unbounded loop", "loop"},
+		{c06Single(c06W("each", c06E(c06S(), c06S()), c06Done), "later", "cancel", 0, 1), "the callback of a builtin", "unbounded loop", "loop"},
+		{c06Single(c06F(c06E(c06S(), c06W("map", c06S(), c06Done)), c06Done), "later", "cancel", 0, 1), "the caller of a builtin whose callback is parked", "unbounded loop", "loop"},
+		{c06Single(c06F(c06E(c06S(), c06B("recv", c06Done)), c06Done), "later", "cancel", 0, 1), "the function itself", "unbounded loop", "receive"},
+		{c06Single(c06F(c06E(c06S(), c06C(c06Done)), c06Done), "later", "cancel", 0, 1), "the deferred closure is what is running (frame returned)", "unbounded loop", "loop"},
+		{c06Single(c06F(c06E(c06C(c06Done), c06S()), c06Done), "later", "cancel", 0, 1), "the function itself", "terminating cleanup", "loop"},
+		{c06Single(c06F(c06E(c06S(), c06S()), c06Done), "pre", "cancel", 0, 1), "the function itself", "unbounded loop", "loop"},
+		// on a VM that has been used before: vm.Call of a function whose callee holds the deferred loop
+		{c06Case{stages: []c06Stage{{prog: c06C(c06Done), entry: "run"}, {prog: c06F(c06E(c06S(), c06S()), c06Done), entry: "call"}}, fire: 1, instant: "later", ctxKind: "cancel", flavSeed: 1}, "the function itself", "unbounded loop", "loop"},
+		{c06Case{stages: []c06Stage{{prog: c06C(c06Done), entry: "run", own: true}, {prog: c06W("sorted", c06E(c06S(), c06S()), c06Done), entry: "runcode"}, {prog: c06S(), entry: "call"}}, fire: 1, instant: "later", ctxKind: "cancel", flavSeed: 2}, "the callback of a builtin", "unbounded loop", "loop"},
+	}
+	for _, d := range deferFixed {
+		c := d.c
+		c06Normalise(&c)
+		c06EvalDeferred(e, c, d.holder, d.body, d.parks)
+	}
+	deferSys := c06DeferSystematic(rng)
+	nDeferSys, nDeferRand := 55, 30
+	if !e.Quick {
+		nDeferSys, nDeferRand = len(deferSys), 500
+	}
+	for i := 0; i < nDeferSys; i++ {
+		var d c06DeferCase
+		if e.Quick {
+			d = deferSys[rng.Intn(len(deferSys))]
+		} else {
+			d = deferSys[i%len(deferSys)]
+		}
+		instant, kind := "later", "cancel"
+		if rng.Chance(8) {
+			instant = "pre"
+		}
+		if rng.Chance(20) {
+			kind = "deadline"
+		}
+		c06EvalDeferred(e, mk(c06Clone(d.prog), instant, kind), d.holder, d.body, d.parks)
+	}
+	for i := 0; i < nDeferRand; i++ {
+		p := c06DeferRandom(rng, 0)
+		if rng.Chance(20) {
+			p = c06C(p)
+		}
+		if !c06Wf(p) {
+			e.R.H("deferred_shapes_outside_the_model(skipped)", "1")
+			continue
+		}
+		instant, kind := "later", "cancel"
+		if rng.Chance(20) {
+			kind = "deadline"
+		}
+		c06EvalDeferred(e, mk(p, instant, kind), "random nesting", "random", "random")
 	}
 	// 6. the RunCode reset race, directly
 	c06ProbeReset(e, probe)
